@@ -114,6 +114,8 @@ class Project(object):
     def check_changes(self):
         # type: () -> t.Iterator[None]
         self._context_cache.clear()
+        # which directories are packages may have changed as well
+        self._norm_cache.clear()
         # Cached modules keep what they got from the modules they import
         # (resolved names, star imports): a changed file outdates all of them.
         # The same goes for modules analysed in the middle of an import cycle.
